@@ -231,6 +231,12 @@ def bash_family(rng, k):
         ('echo a%s\recho b%s' % (word, word), 'a%s\r\nb%s\r\n' % (word, word)),
         ('echo %s\necho second\nprintf third' % word, '%s\r\nsecond\r\nthird' % word),      # every line answers with output of its own
         ('cat <<EOF\none%s\n\ntwo\nEOF' % word, 'one%s\r\n\r\ntwo\r\n' % word),                # an empty line inside a block is part of the command
+        # output that begins with the text of the command is output all the same
+        ('%s() { echo %s; }\n%s' % (word, word, word), word + '\r\n'),
+        # the lines of a command are data as much as code: blanks inside a quoted string or a here-document are part of it
+        ("echo 'a%s\n   \nb'" % word, 'a%s\r\n   \r\nb\r\n' % word),
+        ("  echo 'p%s\n  q'" % word, 'p%s\r\n  q\r\n' % word),
+        ('  cat <<EOF\n  in%s\n  \nEOF' % word, '  in%s\r\n  \r\n' % word),
     ]
     return rng.choice(fam)
 
@@ -249,6 +255,10 @@ def py_family(rng, k):
         ("print('cr%s')\r" % word, 'cr%s\r\n' % word),
         ("print('%s')\nprint('second')" % word, '%s\r\nsecond\r\n' % word),
         ('def f%d():\n    return 41\n\nprint(f%d() + 1)' % (k, k), '42\r\n'),                     # the empty line ends the block
+        ("'%s'" % word, "'%s'\r\n" % word),                        # a literal evaluates to itself: the output repeats the command
+        ('[1, 2, %d]' % k, '[1, 2, %d]\r\n' % k),
+        ('%d' % (k + 7), '%d\r\n' % (k + 7)),
+        ("print('''a%s\n   \nb''')" % word, 'a%s\r\n   \r\nb\r\n' % word),
     ]
     return rng.choice(fam)
 
@@ -283,6 +293,8 @@ while True:
         os.write(1, (''.join(l + '\r\n' for l in body) + P).encode()); continue
     if line.startswith('out '):
         os.write(1, (line[4:] + P).encode()); continue
+    if line.startswith('self'):
+        os.write(1, (line + '\r\n' + P).encode()); continue
     if line.startswith('big '):
         n = int(line[4:]); s = ('0123456789abcdef' * (n // 16 + 1))[:n]
         for i in range(0, n, 3000): os.write(1, s[i:i+3000].encode())
@@ -302,6 +314,9 @@ def fake_family(rng, k):
         ('begin\n%s' % word, ValueError),
         ('noop', ''),
         ('out %s\nout second\nnoop' % word, '%ssecond' % word),
+        ('self%s' % word, 'self%s\r\n' % word),
+        ('begin\n   \n  %s\nend' % word, '   \r\n  %s\r\n' % word),
+        ('begin\n  %s\n  second\nend' % word, '  %s\r\n  second\r\n' % word),
     ]
     return rng.choice(fam)
 
@@ -325,6 +340,7 @@ while True:
             line = line[:-1] + sys.stdin.readline().rstrip('\n')
         if line.startswith('say '): out(line[4:] + '\n')
         elif line.startswith('raw '): out(line[4:])
+        elif line.startswith('self'): out(line + '\n')
         elif line.startswith('rep '): out('0123456789abcdef' * int(line[4:]) + '\n')
         elif line.startswith('prompts '): _, ps1, ps2 = line.split(' ')
         elif line in ('', 'nothing'): pass
@@ -345,6 +361,8 @@ def toy_family(rng, k):
         ('rep %d' % n, '0123456789abcdef' * n + '\r\n'),
         ('say open%s \\' % word, ValueError),
         ('say a%s\nraw b%s' % (word, word), 'a%s\r\nb%s' % (word, word)),
+        ('self%s' % word, 'self%s\r\n' % word),
+        ('say x%s\\\n   ' % word, 'x%s   \r\n' % word),
     ]
     return rng.choice(fam)
 
